@@ -39,12 +39,18 @@ def parse(abbr: str, config: Config):
     # may produce multiple nodes
     # 2. Transform every resolved node
     # In case if config contains text, temporary remove it from config
-    if text:
+    has_text = 'text' in config.user_config
+    if has_text:
         config.user_config['text'] = None
 
-    snippets(abbr, config)
-    walk(abbr, transform, config)
-    config.user_config['text'] = text
+    try:
+        snippets(abbr, config)
+        walk(abbr, transform, config)
+    finally:
+        # Leave caller’s config as it was, also if abbreviation is invalid
+        if has_text:
+            config.user_config['text'] = text
+
     return abbr
 
 def stringify(abbr: Abbreviation, config: Config):
